@@ -71,9 +71,13 @@ class Agg(object):
             self.state_sigs.add(s)
         self.end_states[res.end_state] = \
             self.end_states.get(res.end_state, 0) + 1
-        if len(self.samples) < 2 and res.summary is not None \
-                and res.nontrivial:
-            self.samples.append(res.summary)
+        if res.summary is not None and res.nontrivial:
+            # keep the 3 runs with the smallest index hash: spread over the
+            # whole plan instead of the first few cases
+            key = hashlib.sha256(str(index).encode()).hexdigest()[:8]
+            self.samples.append([key, index, res.summary])
+            self.samples.sort(key=lambda x: x[0])
+            del self.samples[3:]
         for sig, detail in res.violations:
             n = self.sig_counts.get(sig, 0)
             self.sig_counts[sig] = n + 1
@@ -100,9 +104,13 @@ class Agg(object):
 def run_case(prop, seed, index, tier):
     """Execute case `index` of the plan; returns (scenario, RunResult)."""
     scenario = prop.scenario_for(seed, index, tier)
-    rng = make_rng('tape', prop.ID, seed, index)
-    policy = prop.policy(make_rng('policy', prop.ID, seed, index), scenario)
-    tape = Tape(rng, policy)
+    tape = prop.tape_for(scenario, seed, index) \
+        if hasattr(prop, 'tape_for') else None
+    if tape is None:
+        rng = make_rng('tape', prop.ID, seed, index)
+        policy = prop.policy(make_rng('policy', prop.ID, seed, index),
+                             scenario)
+        tape = Tape(rng, policy)
     res = prop.execute(scenario, tape)
     res.tape = tape.sparse()
     return scenario, res
@@ -357,8 +365,10 @@ def run_check(prop, tier, seed, nworkers, total=None, wall_cap=None,
                          % (prop.ID, known_sigs[sig].get('description', sig)))
             continue
         n_viol += 1
-        sc2, tp2, ok = shrink(prop, scenario, tape, sig,
-                              budget_s=45.0 if tier == 'quick' else 120.0)
+        budget = (45.0 if tier == 'quick' else 120.0) if n_viol <= 3 else \
+            (10.0 if n_viol <= 6 else 0.0)
+        sc2, tp2, ok = shrink(prop, scenario, tape, sig, budget_s=budget) \
+            if budget else (scenario, tape, False)
         path = write_replay(prop, sig, sc2, tp2, detail, seed, index, ok)
         sigs, _out = replay_in_fresh_process(prop.ID, path)
         note = '' if sig in sigs else ' (WARNING: fresh-process replay ' \
@@ -407,7 +417,8 @@ def run_check(prop, tier, seed, nworkers, total=None, wall_cap=None,
             'distinct_nontrivial': len(nt),
             'distinct_schedule_signatures': len(ss),
             'distinct_state_signatures': len(sts),
-            'samples': samples[:5],
+            'samples': [dict(case_index=i, case=sm) for _k, i, sm in
+                        sorted(samples, key=lambda x: x[0])[:5]],
         })
         ev['wall_s'] = round(wall, 2)
         ev['violations'] = n_viol
